@@ -11,6 +11,7 @@ import (
 	"math/big"
 	"os"
 	"sort"
+	"strings"
 
 	"golang.org/x/tools/go/ssa"
 )
@@ -612,4 +613,91 @@ func c7BoundedAccumulator(a *ivFn, bo *ssa.BinOp, k numKind) (string, bool) {
 		return "", false
 	}
 	return "accumulator of at most " + itoa(int(maxK)) + " base-" + itoa(int(c)) + " digits: it is read only where the step count is bounded, and " + itoa(int(c)) + "^" + itoa(int(maxK)) + " fits the type", true
+}
+
+// R7.13 — the scope grammar is closed. `principal`, `action` and `resource` clauses are built from entity literals, paths
+// and lists of entity literals only; the productions that fill a policy's scope members must not reach the expression
+// ladder (whose `(` … `)` production silently drops parentheses, whose literals admit every value kind): a scope list
+// parsed as expressions and filtered afterwards accepts `action in [(Action::"view")]`, which is outside the grammar.
+func (c *c7ctx) scopeGrammarClosed() {
+	const rule = "R7.13-scope-grammar-closed"
+	p, r := c.p, c.r
+	isScopeIface := func(t types.Type) bool {
+		n := namedOf(t)
+		return n != nil && n.Obj().Pkg() != nil && n.Obj().Pkg().Path() == pXAst && strings.HasPrefix(n.Obj().Name(), "Is") && strings.HasSuffix(n.Obj().Name(), "ScopeNode")
+	}
+	var scopeFns []*ssa.Function
+	storesScope := func(m *ssa.Function) bool {
+		w := false
+		forEachInstr(m, func(in ssa.Instruction) {
+			st, ok := in.(*ssa.Store)
+			if !ok {
+				return
+			}
+			if fa, ok := st.Addr.(*ssa.FieldAddr); ok {
+				if s := structOf(fa.X.Type()); s != nil && isScopeIface(s.Field(fa.Field).Type()) {
+					w = true
+				}
+			}
+		})
+		return w
+	}
+	for _, m := range c.methods {
+		writes := false
+		for _, cl := range callsIn(m) {
+			if h := cl.Common().StaticCallee(); h != nil && fnPkgPath(h) == pXAst && len(h.Blocks) > 0 && storesScope(h) {
+				writes = true // the scope is set through the policy builder (policy.PrincipalEq(entity), …)
+			}
+		}
+		forEachInstr(m, func(in ssa.Instruction) {
+			st, ok := in.(*ssa.Store)
+			if !ok {
+				return
+			}
+			if fa, ok := st.Addr.(*ssa.FieldAddr); ok {
+				if s := structOf(fa.X.Type()); s != nil && isScopeIface(s.Field(fa.Field).Type()) {
+					writes = true
+				}
+			}
+		})
+		if writes && !c.levels[m] {
+			scopeFns = append(scopeFns, m)
+		}
+	}
+	if len(scopeFns) < 3 {
+		r.Anchor(rule, "the productions that fill a policy's principal/action/resource scope (found "+itoa(len(scopeFns))+")")
+		return
+	}
+	isMethod := map[*ssa.Function]bool{}
+	for _, m := range c.methods {
+		isMethod[m] = true
+	}
+	for _, sf := range scopeFns {
+		seen := map[*ssa.Function]bool{}
+		var path func(f *ssa.Function, trail []string) []string
+		path = func(f *ssa.Function, trail []string) []string {
+			if seen[f] {
+				return nil
+			}
+			seen[f] = true
+			for _, g := range withAnon(f) {
+				for _, cl := range callsIn(g) {
+					h := cl.Common().StaticCallee()
+					if h == nil || !isMethod[h] {
+						continue
+					}
+					if c.levels[h] || c.listFns[h] {
+						return append(trail, fnBase(h))
+					}
+					if t := path(h, append(trail, fnBase(h))); t != nil {
+						return t
+					}
+				}
+			}
+			return nil
+		}
+		t := path(sf, []string{fnBase(sf)})
+		r.Check(t == nil, rule, fnQual(sf), p.pos(sf.Pos()), "this scope production stays within entity literals, paths and entity lists",
+			"the scope production "+fnBase(sf)+" reaches the expression grammar ("+strings.Join(t, " → ")+"): expressions admit parentheses and every literal kind, so text outside the scope grammar (`action in [(Action::\"view\")]`) is accepted")
+	}
 }
